@@ -37,8 +37,26 @@ impl Acc {
     }
 }
 
+/// compact presentation with the attacks inserted in reverse order
+fn build_reversed(g: &Graph) -> Built<usize> {
+    use crustabri::aa::{AAFramework, ArgumentSet};
+    let labels: Vec<usize> = (0..g.n).map(crate::universe::usize_label).collect();
+    let mut af = AAFramework::new_with_argument_set(ArgumentSet::new_with_labels(&labels));
+    for &(a, b) in g.att.iter().rev() {
+        af.new_attack(&labels[a], &labels[b]).unwrap();
+    }
+    Built { af, labels }
+}
+
 pub fn check_graph(g: &Graph, pres: Presentation) -> Result<(Vec<Vec<usize>>, usize), (String, String)> {
-    let b: Built<usize> = build_usize(g, pres);
+    check_built_graph(g, build_usize(g, pres))
+}
+
+pub fn check_graph_reversed(g: &Graph) -> Result<(Vec<Vec<usize>>, usize), (String, String)> {
+    check_built_graph(g, build_reversed(g))
+}
+
+fn check_built_graph(g: &Graph, b: Built<usize>) -> Result<(Vec<Vec<usize>>, usize), (String, String)> {
     let r = Ref::new(g);
     let co = r.all_complete();
     let sig: Vec<u64> = (0..g.n).map(|a| co.iter().enumerate().fold(0u64, |acc, (i, e)| if e >> a & 1 == 1 { acc | 1 << (i % 64) } else { acc })).collect();
@@ -111,16 +129,28 @@ pub fn run(tier: Tier) -> i32 {
     let thorough = tier == Tier::Thorough;
     let mut graphs: Vec<Graph> = universe_upto(4);
     let mut space = "U(<=4)".to_string();
-    let u5 = iso_representatives_sparse(5, if thorough { 7 } else { 5 });
-    space.push_str(&format!(" + {} iso-classes of 5-argument graphs with <= {} attacks", u5.len(), if thorough { 7 } else { 5 }));
-    graphs.extend(u5);
-    let acc = graphs
-        .par_iter()
-        .map(|g| {
+    if thorough {
+        // every labelled digraph on 5 arguments (2^25)
+        space.push_str(" + all 33 554 432 labelled 5-argument digraphs");
+    } else {
+        let u5 = iso_representatives_sparse(5, 7);
+        space.push_str(&format!(" + {} iso-classes of 5-argument graphs with <= 7 attacks, each also with reversed argument numbering", u5.len()));
+        let rev: Vec<usize> = (0..5).rev().collect();
+        for g in u5 {
+            graphs.push(g.permuted(&rev));
+            graphs.push(g);
+        }
+    }
+    let check_one = |g: &Graph| {
             let mut acc = Acc::default();
             acc.graphs = 1;
-            for pres in [Presentation::Compact, Presentation::Dup] {
-                match check_graph(g, pres) {
+            for (pname, pres) in [("compact", Some(Presentation::Compact)), ("dup", Some(Presentation::Dup)), ("compact_reversed_attack_order", None)] {
+                let r = match pres {
+                    Some(p) => check_graph(g, p),
+                    None => check_graph_reversed(g),
+                };
+                let pres = pres.unwrap_or(Presentation::Hole);
+                match r {
                     Ok((classes, _)) => {
                         acc.classes += classes.len() as u64;
                         let nt = classes.iter().filter(|c| c.len() >= 2).count() as u64;
@@ -135,12 +165,12 @@ pub fn run(tier: Tier) -> i32 {
                         }
                     }
                     Err((what, msg)) => {
-                        let key = format!("presentation={};what={}", pres.name(), what);
+                        let key = format!("presentation={};what={}", pname, what);
                         let v = Violation {
                             property: "C19".into(),
                             key: key.clone(),
-                            message: format!("{} [{}]: {}", g.describe(), pres.name(), msg),
-                            case: json!({"engine": "equivalence", "graph": g.to_json(), "presentation": pres.name()}),
+                            message: format!("{} [{}]: {}", g.describe(), pname, msg),
+                            case: json!({"engine": "equivalence", "graph": g.to_json(), "presentation": pname}),
                         };
                         let e = acc.violations.entry(key).or_insert((0, v));
                         e.0 += 1;
@@ -148,14 +178,18 @@ pub fn run(tier: Tier) -> i32 {
                 }
             }
             acc
-        })
-        .reduce(Acc::default, Acc::merge);
-    rep.states = acc.graphs * 2;
+        };
+    let mut acc = graphs.par_iter().map(|g| check_one(g)).reduce(Acc::default, Acc::merge);
+    if thorough {
+        let more = (0..(1u64 << 25)).into_par_iter().map(|c| check_one(&Graph::from_code(5, c))).reduce(Acc::default, Acc::merge);
+        acc = acc.merge(more);
+    }
+    rep.states = acc.graphs * 3;
     rep.transitions = acc.classes.max(1);
-    rep.traces = acc.graphs * 2;
-    rep.evaluations = acc.graphs * 2;
+    rep.traces = acc.graphs * 3;
+    rep.evaluations = acc.graphs * 3;
     rep.distinct_nontrivial = acc.graphs_with_merge;
-    rep.extra.insert("space".into(), json!({"description": space, "graphs": acc.graphs, "presentations": ["compact", "dup"], "classes_with_at_least_two_members": acc.nontrivial_classes, "graphs_with_a_merge": acc.graphs_with_merge}));
+    rep.extra.insert("space".into(), json!({"description": space, "graphs": acc.graphs, "presentations": ["compact", "dup", "compact with reversed attack insertion order"], "classes_with_at_least_two_members": acc.nontrivial_classes, "graphs_with_a_merge": acc.graphs_with_merge}));
     if let Some(s) = acc.sample {
         rep.add_sample(s);
     }
